@@ -309,7 +309,7 @@ func (d *Doc) Coq() string {
 
 type FilterCfg struct {
 	IncludeTags, ExcludeTags, IncludeIDs, ExcludeIDs []string
-	SkipPrune                                         bool
+	SkipPrune                                        bool
 }
 
 func (c FilterCfg) Coq() string {
